@@ -762,6 +762,8 @@ def gen_C12():
             f = ast.unparse(n.func)
             kws = {k.arg: ast.unparse(k.value) for k in n.keywords if k.arg}
             kind = None
+            recv = f.rsplit(".", 1)[0] if "." in f else ""
+            attr = f.rsplit(".", 1)[-1]
             if f.endswith(".sample") and ("frac" in kws or "n" in kws):
                 kind = "DataFrame.sample"
             elif f == "bootstrap" or f.endswith(".bootstrap"):
@@ -770,10 +772,17 @@ def gen_C12():
                 kind = "default_rng"
             elif f.startswith("np.random.") or f.startswith("random."):
                 kind = f
+            elif attr == "rvs":
+                kind = "scipy rvs"  # a frozen scipy distribution: draws from numpy's global generator unless random_state is given
+            elif recv in ("self.rng", "rng") and attr in ("normal", "choice", "shuffle", "multivariate_normal", "uniform", "integers",
+                                                           "permutation", "random", "standard_normal", "permuted"):
+                kind = "generator." + attr  # a draw from the model's own generator (itself a seeded default_rng site)
             if kind is None:
                 continue
             if kind == "default_rng":
                 seed = kws.get("seed") or (ast.unparse(n.args[0]) if n.args else None)
+            elif kind.startswith("generator."):
+                seed = recv
             else:
                 seed = kws.get("random_state") or kws.get("seed") or kws.get("rng")
             seeded = seed is not None and seed != "None"
